@@ -99,6 +99,8 @@ def _judge_core(ctx, prop, r):
     if r.get('deadlock'):
         out.append(('C04|deadlock|all-workers-idle|%s' % cmd, 'the probe\'s watch thread saw a state from which the call cannot return: %s' % r['deadlock']))
         return out
+    if r.get('skipped'):
+        return out          # not run: the run had already collected its hang witnesses (see vlib/run.py)
     if r.get('hang'):
         out.append(('hang|%s' % cmd, 'no return within the watchdog in two runs; stacks: %s' % (r.get('stderr') or '')[-1500:]))
         return out
@@ -201,6 +203,9 @@ def floors(ctx, prop, cov, recs):
     to1 = sum(1 for r in recs.values() if r.get('timeout') and not r.get('hang'))
     if to1:
         out.append('%d case(s) hit the watchdog once' % to1)
+    sk = sum(1 for r in recs.values() if r.get('skipped'))
+    if sk:
+        out.append('%d case(s) were not run after %d watchdog time-outs' % (sk, to1 + sum(1 for r in recs.values() if r.get('hang'))))
     return out
 
 # ----------------------------------------------------------------------------
@@ -795,7 +800,7 @@ def cov_c19(ctx, recs):
         c = r['case']; k['%s/%s' % (c.get('sub'), c.get('trans', '-'))] += 1
     return {'calls_by_kernel_and_op': dict(k)}
 
-PROPS['C19'] = dict(gen=gen_c19, relevant=('C19|', 'C09|'), counters=('nnz',), batch=40, judge=judge_c19, coverage_extra=cov_c19,
+PROPS['C19'] = dict(timeout_case=20.0, gen=gen_c19, relevant=('C19|', 'C09|'), counters=('nnz',), batch=40, judge=judge_c19, coverage_extra=cov_c19,
                     nontrivial=lambda r: (r.get('result') or {}).get('nnz', 0) >= 2 and not (r.get('result') or {}).get('nfail'),
                     rule='direct calls of sp_?gemv (N/T/C, alpha,beta in {0,1,-1,generic}, strides 1,2,-1,-3), sp_?gemm, sp_?trsv for every (uplo,trans) on L/U from real factorizations '
                     '(1..4 threads), ?langs (M,1,O,I,F,E), ?CompRow_to_CompCol, ?Copy_CompCol_Matrix, ?Create_CompCol_Permuted on random m x n matrices incl. empty columns; 4 precisions; '
@@ -842,7 +847,7 @@ def gen_c10(ctx):
         out.append(({'variant': 'asan' if i % 5 == 0 else 'plain', 'prec': rng.choice(['d', 's'])}, c))
     return out
 
-PROPS['C10'] = dict(gen=gen_c10, relevant=('C10|',), counters=('nnz', 'n'), batch=40,
+PROPS['C10'] = dict(timeout_case=20.0, gen=gen_c10, relevant=('C10|',), counters=('nnz', 'n'), batch=40,
                     nontrivial=lambda r: (r.get('result') or {}).get('n', 0) >= 3 and (r.get('result') or {}).get('nnz', 0) >= 2,
                     rule='get_perm_c(0..3) and sp_colorder (symmetric mode on/off, library or random caller ordering) on every 0/1 pattern with n<=3 (quick) / sampled n<=4 (thorough) and on random/structured patterns '
                     'up to n=120/300 with empty rows/columns, dense rows/columns, rectangular shapes (orderings only); plain + ASan builds; distinct = sha1(case); non-trivial = n>=3, nnz>=2; '
@@ -887,7 +892,7 @@ def cov_c11(ctx, recs):
     d['direct_calls'] = dict(k)
     return d
 
-PROPS['C11'] = dict(gen=gen_c11, relevant=('C11|',), counters=('nnz',), batch=40, coverage_extra=cov_c11,
+PROPS['C11'] = dict(timeout_case=20.0, gen=gen_c11, relevant=('C11|',), counters=('nnz',), batch=40, coverage_extra=cov_c11,
                     nontrivial=lambda r: (r.get('result') or {}).get('nnz', 0) >= 2,
                     rule='?gsequ and ?laqgs called directly on m x n matrices whose entries are +-2^e with e spread over the whole exponent range of the precision, with zero/empty rows and columns, 1x1; '
                     'plus equilibrating expert-driver calls on badly scaled systems; 4 precisions; distinct = sha1(case); non-trivial = nnz>=2; oracle: R, C finite >0 and equal to 1/clip(max) within 1.5/4 ulp '
@@ -918,7 +923,7 @@ def cov_c15(ctx, recs):
         k[res.get('rt', '?')] += 1
     return {'calls_by_routine': dict(k), 'violations_in_table': dict(ARG_TABLE)}
 
-PROPS['C15'] = dict(gen=gen_c15, relevant=('C15|',), counters=('xerbla_calls',), batch=30, coverage_extra=cov_c15,
+PROPS['C15'] = dict(timeout_case=20.0, gen=gen_c15, relevant=('C15|',), counters=('xerbla_calls',), batch=30, coverage_extra=cov_c15,
                     nontrivial=lambda r: 'want' in (r.get('result') or {}),
                     rule='table-driven: every single documented-precondition violation and all pairs of violations for p?gssv, p?gssvx, ?gstrs, ?gsrfs, ?gscon, ?gsequ, sp_?trsv, sp_?gemv, '
                     '4 precisions, plain and ASan builds; distinct = sha1(case); oracle: info = -(lowest documented position), the error handler is called exactly once with that position, '
@@ -1358,7 +1363,7 @@ def cov_c20(ctx, recs):
         if r['meta'].get('text') and len(texts) < 2: texts.append(r['meta']['text'][:600])
     return {'files_by_format_precision': dict(k), 'distinct_value_descriptors': len(descs), 'sample_file_heads': texts}
 
-PROPS['C20'] = dict(gen=gen_c20, relevant=('C20|',), counters=('nnz',), batch=1, judge=judge_c20, coverage_extra=cov_c20,
+PROPS['C20'] = dict(timeout_case=15.0, gen=gen_c20, relevant=('C20|',), counters=('nnz',), batch=1, judge=judge_c20, coverage_extra=cov_c20,
                     nontrivial=lambda r: (r.get('result') or {}).get('nnz', 0) >= 2,
                     rule='files written by an independent python writer (from the format definitions in the readers` header comments): Harwell-Boeing with optional right-hand-side header and data, Rutherford-Boeing, '
                     'column-triplet; random m x n patterns incl. empty columns, random legal (kIw) and (kEw.d)/(kDw.d)/(kFw.d)/(1PkEw.d) descriptors within 80 columns, D and E exponents, real and complex, '
